@@ -12,6 +12,7 @@ import AgVerif.Proof.InsnFields
 import AgVerif.Proof.InsnFieldsFull
 import AgVerif.Proof.InsnEdAll
 import AgVerif.Proof.InsnDecValid
+import AgVerif.Proof.InsnLits
 namespace AgVerif.C01
 open AgVerif.Insn AgVerif.Gen AgVerif.Spec
 
@@ -171,6 +172,61 @@ theorem decode_in_range (f : Fmt) (hsp : (toSpec f).isSome = true) (bs : List Na
     (h : decode f bs = .ok x) : x.op < 256 ∧ fieldsOK f x.op x.v = true ∧ bs.head? = some x.op :=
   decode_fieldsOK f hsp bs hb x h
 
+/-- Field meaning composed through the public entry point, with no side condition but `AllBytes bs` and A ≤ 5 for
+    35c: whatever `get_instruction(cm, bs[0], bs)` returns has the first byte as its opcode, the format the
+    specification's table gives that opcode, the length `2 · units`, and exposes exactly the registers, literal,
+    branch offset and pool indices the format document assigns to the first `length` bytes.  (Glues
+    `table_matches_spec`, `table_kinds`, `decode_in_range`, `length_spec` and `fields_spec`.) -/
+theorem get_instruction_fields (bs : List Nat) (hb : AllBytes bs) (x : Insn) (h : getInstruction bs = .ok x)
+    (hA : x.fmt = .f35c → Dalvik.countA (leNat (bs.take x.length)) ≤ 5) :
+    ∃ op rest sf, bs = op :: rest ∧ x.op = op ∧ Dalvik.formatOf op = some sf ∧ toSpec x.fmt = some sf ∧
+      x.length = 2 * Dalvik.units sf ∧
+      View.ofInsn x = View.ofMeaning (Dalvik.meaning sf op (leNat (bs.take x.length))) := by
+  match bs, h with
+  | op :: rest, h =>
+    have hop : op < 256 := (allBytes_cons.mp hb).1
+    obtain ⟨hsome, hsp, hun⟩ := table_matches_spec op hop
+    cases hf : fmtOf op with
+    | none => simp [hf] at hsome
+    | some f =>
+      simp only [getInstruction, hf] at h
+      obtain ⟨hfmt, hlen, hle⟩ := length_of_decoded f _ x h
+      simp only [hf, Option.bind_some] at hsp
+      cases hs : Dalvik.formatOf op with
+      | none =>
+        have := hun hs
+        rw [hf] at this
+        simp only [Option.some.injEq] at this
+        subst this
+        simp [decode] at h
+      | some sf =>
+        have hsf : toSpec f = some sf := by rw [hsp, hs]
+        obtain ⟨_, _, hhead⟩ := decode_in_range f (by rw [hsf]; rfl) _ hb x h
+        have hxop : x.op = op := by
+          simp only [List.head?_cons, Option.some.injEq] at hhead
+          exact hhead.symm
+        have hmem : f ∈ Fmt.all := by cases f <;> decide
+        obtain ⟨hk, h21⟩ := table_kinds op hop f hmem hf
+        have hfs := fields_spec f sf hsf _ hb x h
+          (fun hn => by
+            rw [hxop]
+            cases hko : kindOf op with
+            | none => have := hk hn; rw [hko] at this; simp at this
+            | some k => exact ⟨k, rfl⟩)
+          (fun h21h => by rw [hxop]; exact h21 h21h)
+          (fun h35 => by rw [← hlen]; exact hA (by rw [hfmt]; exact h35))
+        refine ⟨op, rest, sf, rfl, hxop, hs, by rw [hfmt]; exact hsf, ?_, ?_⟩
+        · rw [hlen]; exact length_spec f sf hsf
+        · rw [hlen]; have := hfs.1; rw [hxop] at this; exact this
+
+/-- `fields_spec` compares the literal through `get_literals()`; the literal that `get_operands()` shows is the same
+    one: for every object of a specification class (any attribute values; 35c, which has no literal, excepted) the
+    `Operand.LITERAL` entries of `get_operands()` are exactly `get_literals()`. -/
+theorem operand_literals (x : Insn) (hs : (toSpec x.fmt).isSome = true)
+    (hk : needsKind x.fmt = true → ∃ k, kindOf x.op = some k) (h35 : x.fmt ≠ .f35c) :
+    litsOfOperands x = literals x :=
+  lits_operands_all x hs hk h35
+
 /-! ### non-vacuity -/
 
 example : AllBytes [0x6e, 0x20, 0x03, 0x00, 0x21, 0x00] := by unfold AllBytes; decide
@@ -182,6 +238,7 @@ example : decode .f11n [0x12, 0xf7] = .ok ⟨.f11n, 0x12, [7, -1]⟩ := by rfl
 example : decode .f21h [0x15, 0x00, 0xcd, 0xab] = .ok ⟨.f21h, 0x15, [0, -21555, -1412628480]⟩ := by rfl
 example : decode .f10x [0x00, 0x01] = .error .pad := by rfl
 example : 0x3e ∈ Dalvik.unused := by decide
+example : litsOfOperands ⟨.f22b, 0xd8, [1, 2, -3]⟩ = [-3] := by decide
 example : decode .f3rc [0x74, 0x03, 0x07, 0x00, 0x10, 0x00] = .ok ⟨.f3rc, 0x74, [3, 7, 16]⟩ := by rfl
 example : regs ⟨.f3rc, 0x74, [3, 7, 16]⟩ = [16, 17, 18] := by decide
 example : decode .f45cc [0xfa, 0x21, 0x03, 0x00, 0x54, 0x00, 0x09, 0x00] = .ok ⟨.f45cc, 0xfa, [2, 3, 4, 5, 0, 0, 1, 9]⟩ := by rfl
